@@ -1,6 +1,35 @@
+import hashlib
+import json
+import os
+import time
+
+import vlib
 from registry import reg, Check
 
-reg(Check(
+
+class C12Check(Check):
+    """A panic inside a goroutine spawned by the code under test cannot be
+    recovered by the harness and ends it.  The harness journals the case it is
+    running; when it dies that case is reported as the failing input."""
+
+    def main(self, tier, seed, replay=None):
+        t0 = time.time()
+        rc = super().main(tier, seed, replay)
+        if rc != 2:
+            return rc
+        tag = hashlib.sha1(vlib.REPO.encode()).hexdigest()[:8]
+        f = os.path.join(vlib.RUN, self.pid, tag, "main", "inflight.json")
+        if os.path.exists(f) and os.path.getmtime(f) >= t0:
+            case = json.load(open(f))
+            rp = self.replay_path(dict(property=self.pid, kind="violation", tag=2, case=case,
+                                       what="the harness process died while running this case (panic or fatal error outside recover())",
+                                       replay_cmd="./check %s --replay <this file>" % self.pid))
+            vlib.log("VIOLATION property=%s replay=%s" % (self.pid, rp))
+            return 1
+        return rc
+
+
+reg(C12Check(
     "C12", "c12",
     coq_targets=["Total/C12Check.vo", "Total/TotalProofs.vo", "Props/C12.vo"],
     assumptions=[
